@@ -518,6 +518,7 @@ func init() { drivers["regstress"] = regStressMain }
 func regStressMain(args []string) error {
 	c := newCommon("regstress")
 	dur := c.fs.Duration("dur", 3*time.Second, "duration of the stress run")
+	static := c.fs.Bool("static", false, "register the local service and two connections for it up front and only serve (C13: the serving paths alone)")
 	readers := c.fs.Int("readers", 14, "reader goroutines")
 	maxReq := c.fs.Int("maxreq", 40000, "requests kept in the trace")
 	c.fs.Parse(args)
@@ -601,9 +602,18 @@ func regStressMain(args []string) error {
 			time.Sleep(time.Duration(r.Intn(300)) * time.Microsecond)
 		}
 	}
-	wg.Add(2)
-	go writer("w1", []string{"c1"}, true, 1)
-	go writer("w2", []string{"c2"}, false, 2)
+	if *static {
+		// three backends for service A (local, c1, c2 - each with descriptors of its own), B through c2: then requests only
+		for _, op := range []RegOp{{"reglocal", "local"}, {"regconn", "c1"}, {"regconn", "c2"}} {
+			if oe := w.apply(op, 0); !oe.OK {
+				return fmt.Errorf("static setup: %s(%s): %s %s", op.Op, op.B, oe.Err, oe.Crash)
+			}
+		}
+	} else {
+		wg.Add(2)
+		go writer("w1", []string{"c1"}, true, 1)
+		go writer("w2", []string{"c2"}, false, 2)
+	}
 	for i := 0; i < *readers; i++ {
 		wg.Add(1)
 		go func(i int) {
